@@ -46,6 +46,10 @@ type Case struct {
 	// OnEvent, when set, is called synchronously after each non-probe event (index counts those).
 	OnEvent func(index int, ev *obs.Event)
 
+	// RefFailures also asks the reference interpreter at every evaluation event whether the condition
+	// fails to evaluate (a fresh engine shares the evaluator and would hide a swallowed failure).
+	RefFailures bool
+
 	// ReuseLive / ReuseDC, when set, make the call run on an existing data context (and its live fact
 	// objects) instead of a new one built from Init.
 	ReuseLive *facts.State
@@ -256,6 +260,14 @@ func RunOn(c *Case, p *Prepared, kb *ast.KnowledgeBase) *Report {
 		case obs.EvEval:
 			tr, terr := p.Solo.Truth(ev.Rule, live, dc)
 			ev.Truth, ev.TruthErr, ev.HasTruth = tr, terr, true
+			if c.RefFailures && terr == nil {
+				if rule, ok := p.ByName[ev.Rule]; ok {
+					if _, rerr := ref.New(obs.Capture(live, dc)).Eval(rule.When); rerr != nil && !ref.IsUndefined(rerr) {
+						ev.TruthErr = fmt.Errorf("the reference interpreter fails to evaluate the condition (%v) although a fresh engine reports no failure", rerr)
+						ev.Truth = false
+					}
+				}
+			}
 		case obs.EvExec:
 			ev.State = obs.Capture(live, dc)
 			tr, terr := p.Solo.Truth(ev.Rule, live, dc)
